@@ -42,7 +42,10 @@ RULE = ("a case is one operation of a generated call history over a pool of 6-8 
         "shapes, use font and XObject names only the previous page defines, show text before any Tf; observables "
         "include shapes (LTRect/LTLine/LTCurve with points, width, colours, original path); every pool holds >= 2 "
         "pairs of composite fonts of ONE character collection in horizontal and vertical writing (Identity-H/V and "
-        "predefined -H/-V CMaps) whose strings contain codes mapped differently by the two unicode tables; between the "
+        "predefined -H/-V CMaps) whose strings contain codes mapped differently by the two unicode tables; every document "
+        "dereferences references that resolve to nothing (no xref entry; in object-stream documents a compressed entry "
+        "past the stream's /N) as font, XObject, /Contents element and /Rotate, and may share a truncated Flate "
+        "content stream between its pages; between the "
         "pools a 'bulk' document (70 000 distinct names, 70 000 distinct unknown operators, 400 content streams, 150 "
         "fonts) is extracted, ordinary documents before and after it; operations: extract_text / extract_pages / "
         "extract_text_to_fp(text,xml,html,tag) / open-next-close of interleaved page iterators (public generator "
@@ -73,7 +76,7 @@ ASSUMPTIONS = [
 STATEMENT_STATUS: Dict[str, str] = {
     "tables_inv": "proved (all histories): encoding tables = initial; every CMap/unicode-map cache entry = fresh load of its key",
     "tables_only_grow": "proved (all histories): continuing a history never removes or alters a shared cache entry",
-    "cache_inv": "proved (all histories, every open iterator): object / object-stream / font cache entries = fresh computation",
+    "cache_inv": "proved (all histories, every open iterator): object / object-stream / font cache entries = fresh computation; the object-stream guard set is empty between operations",
     "touch_observationally_neutral": "proved: in-place normalisation of cached objects is idempotent and invisible to reads",
     "C12_extract_eq_spec": "proved: extract after ANY history = pages computed from fresh values only",
     "C12_history": "proved (full statement of DESIGN section 6)",
@@ -90,6 +93,8 @@ STATEMENT_STATUS: Dict[str, str] = {
     "C12_interp_reset": "proved: whatever the interpreter was left with by the previous page (unpainted path, unbalanced q, line width, dangling operands), the next page's result is the fresh page",
     "C12_interp_left_independent": "proved: what a page leaves behind does not depend on what it found",
     "curpath_leak_cex": "proved counter-example: init_state without the reset of the current path leaks a shape into the next page",
+    "C12_dangling_harmless": "proved: a reference that resolves to nothing (no xref entry / compressed entry past the stream's /N) reads as null and leaves valid caches; later reads are still the fresh values",
+    "guard_leak_cex": "proved counter-example: an object-stream 'in progress' mark that is not released after a failed lookup hides the stream's other objects",
     "umap_mode_cex": "proved counter-example: a unicode-map cache keyed by the collection name that holds only the table of the writing mode asked for first gives a later font of the other mode the wrong table (the model's entry holds both tables)",
     "C12_cmap_copy": "proved: extending a private CMap built with usecmap leaves the shared CMap = fresh load",
     "nocopy_cex": "proved counter-example: get_encoding without the copy leaks /Differences into later fonts",
@@ -355,7 +360,9 @@ def check_cache_inv(h: LLHandle) -> Optional[Tuple[str, Any, Any, Any]]:
         if n != fn or [canon_obj(x) for x in objs] != [canon_obj(x) for x in fo]:
             return ("parsed object-stream cache entry differs from a fresh parse", sid, "fresh", "cached")
     for objid, font in sorted(h.rsrc._cached_fonts.items(), key=lambda kv: repr(kv[0])):
-        ff = PDFResourceManager(caching=False).get_font(objid, dict_value(fresh.getobj(objid)))
+        from pdfminer.pdftypes import PDFObjRef
+        # through a reference, like init_resources does: an object id that resolves to nothing gives {}
+        ff = PDFResourceManager(caching=False).get_font(objid, dict_value(PDFObjRef(fresh, objid)))
         a, b = font_fingerprint(font), font_fingerprint(ff)
         if a != b:
             return ("font cache entry differs from a freshly built font", objid, repr(b)[:400], repr(a)[:400])
@@ -573,6 +580,8 @@ def baseline_job(data: bytes, pw: str, las: List[str], reverse: bool = False, li
 
 
 def worker_main() -> None:
+    import logging
+    logging.getLogger("pdfminer").setLevel(logging.ERROR)
     job = json.load(sys.stdin)
     out = baseline_job(bytes.fromhex(job["doc"]), job["pw"], job["las"], job.get("reverse", False), job.get("light", False))
     json.dump(out, sys.stdout)
@@ -854,7 +863,8 @@ class Exec:
         if hasattr(ip, "gstack"):      # init_state has run at least once
             left = "%d.%d.%d.%d" % (len(ip.curpath), len(ip.gstack), int(ip.graphicstate.linewidth), len(ip.argstack))
         return "objs=" + ",".join(map(str, st["objs"])) + " pobjs=" + ",".join(map(str, st["pobjs"])) + \
-            " fonts=" + ",".join(map(str, st["fonts"])) + " interp=" + left
+            " fonts=" + ",".join(map(str, st["fonts"])) + \
+            " busy=%d" % len(getattr(hd.pdoc, "_objstms_in_progress", ())) + " interp=" + left
 
     def cmapparse(self, idx: int, name: str, tags) -> None:
         """The anchored copy mechanism CMap.use_cmap: build a private CMap on top of a shared one
@@ -1097,10 +1107,10 @@ def show_codes(fd: P.FontDesc, s: bytes, cm: NameIds) -> List[int]:
 
 
 def doc_tokens(d: P.Doc, cm: NameIds, um: NameIds, gidx: Dict[str, int]) -> List[int]:
-    objnums = sorted(set(d.all_objnums) | ({d.objstm_id} if d.objstm else set()))
+    objnums = sorted(set(d.all_objnums) | ({d.objstm_id} if d.objstm else set()) | set(d.dangling_in_stream))
     t: List[int] = [len(objnums)]
     for n in objnums:
-        t += [n, d.objstm_id if n in d.objstm else 0]
+        t += [n, d.objstm_id if (n in d.objstm or n in d.dangling_in_stream) else 0, int(n in d.dangling_in_stream)]
     t.append(len(d.fonts))
     for n, fd in sorted(d.fonts.items()):
         t.append(n)
@@ -1212,7 +1222,7 @@ def model_check(ctx: C.Ctx, seed: str, docs, ops, ex) -> None:
             return
         ctx.branch("tie:tables")
         if obs["caches"] is not None:
-            got = " ".join(f"{k}={fields.get(k, '')}" for k in ("objs", "pobjs", "fonts", "interp"))
+            got = " ".join(f"{k}={fields.get(k, '')}" for k in ("objs", "pobjs", "fonts", "busy", "interp"))
             want = obs["caches"]
             if want.endswith("interp=-"):          # no page interpreted yet: the model starts from Interp.init
                 want = want[:-1] + "0.0.0.0"
@@ -1272,6 +1282,8 @@ def replay(ctx: C.Ctx, doc, from_corpus: bool = False) -> None:
 def warm_imports() -> None:
     """Import every pdfminer module up front so that module-level LIT()/KWD() calls are not
     attributed to the first operation of a history."""
+    import logging
+    logging.getLogger("pdfminer").setLevel(logging.ERROR)     # tolerated damage is logged as warnings: keep the run readable
     import pdfminer.high_level  # noqa: F401
     import pdfminer.image  # noqa: F401
     import pdfminer.jbig2  # noqa: F401
